@@ -973,6 +973,18 @@ func (e *Exec) exitEnv() *Env {
 		errs = IntLit(0)
 	}
 	names["$errs"] = cval{t: errs, ty: types.Typ[types.Int]}
+	if e.errTok != nil {
+		// token handed to the last NotifyErrorListeners call; its Go type is antlr.Token (an interface)
+		var tokTy types.Type
+		for path, tp := range e.P.TPkgs {
+			if strings.HasSuffix(path, "antlr4-go/antlr/v4") {
+				if o := tp.Types.Scope().Lookup("Token"); o != nil {
+					tokTy = o.Type()
+				}
+			}
+		}
+		names["$errtok"] = cval{t: e.errTok, ty: tokTy}
+	}
 	return &Env{e: e, st: e.exit, old: e.entry, names: names, oldNames: env.names, pkg: e.Fn.Pkg.Pkg}
 }
 
